@@ -441,8 +441,11 @@ func (v *Verifier) solveAll(obls []*Obligation, workDir string, timeoutS int, jo
 				return
 			}
 			rto := 5
+			if o.Known {
+				rto = 2 // a listed finding: the obligation is expected to fail, a model is a bonus
+			}
 			best, _, _ := portfolio(rfile, rto, sem, []solverSpec{solvers[1], solvers[0]})
-			if best == nil {
+			if best == nil && !o.Known {
 				// cvc5 answers "unknown" but still prints a candidate model when quantified assumptions remain
 				r := runSolver(context.Background(), solvers[1], rfile, rto)
 				if r.Result == "unknown" && strings.Contains(r.Output, "define-fun") {
@@ -457,6 +460,60 @@ func (v *Verifier) solveAll(obls []*Obligation, workDir string, timeoutS int, jo
 					o.Result, o.Solver, o.Time = "sat", best.Solver+"(refutation mode)", o.Time+best.Time
 				}
 				o.File = rfile
+			}
+			if !o.Known && o.Replayable && (len(o.ReplayAssume) > 0 || !(best != nil && best.Result == "sat")) {
+				// candidate mode: the quantified assumptions are dropped; the model of the weakened query is only a
+				// candidate input, which the replay validates against the real code (it never decides an obligation)
+				cfile := strings.TrimSuffix(file, ".smt2") + ".candidate.smt2"
+				var keep []string
+				// (ground mode: the quantified assumptions are first instantiated on the ground terms of the query, so that the
+				// candidate respects their relevant instances, e.g. "the nil map has no keys")
+				co := *o
+				// objects are well formed the way the constructors make them: embedded pointers of allocated objects are set
+				for hv := range v.embeddedPtr {
+					if !v.decls.seen["heap0:"+hv] {
+						continue
+					}
+					sym := smtIdent(hv) + "_0"
+					co.Asserts = append(co.Asserts[:len(co.Asserts):len(co.Asserts)], "(forall ((r!w Int)) (=> (> r!w 0) (> (select "+sym+" r!w) 0)))")
+				}
+				// "the nil map has no keys" in a form the ground instantiation can match on any map term
+				for _, m := range mdDeclRe.FindAllStringSubmatch(v.buildQuery(o, false, true, false), -1) {
+					co.Asserts = append(co.Asserts[:len(co.Asserts):len(co.Asserts)], "(forall ((m!z Int) (k!z "+m[2]+")) (=> (select (select "+m[1]+" m!z) k!z) (not (= m!z 0))))")
+				}
+				for _, ln := range strings.Split(v.buildQuery(&co, true, true, true), "\n") {
+					if strings.HasPrefix(ln, "(assert (forall") || strings.HasPrefix(ln, "(assert (exists") {
+						continue
+					}
+					if strings.Contains(ln, "(forall ") || strings.Contains(ln, "(exists ") {
+						ln = dropNestedQuantifiers(ln)
+					}
+					keep = append(keep, ln)
+				}
+				base := strings.Join(keep, "\n")
+				variants := []string{base}
+				if len(o.ReplayAssume) > 0 {
+					extra := ""
+					for _, a := range o.ReplayAssume {
+						extra += "(assert " + dropNestedQuantifiers(a) + ")\n"
+					}
+					variants = []string{strings.Replace(base, "(check-sat)", extra+"(check-sat)", 1), base}
+				}
+			search:
+				for _, text := range variants {
+					if os.WriteFile(cfile, []byte(text), 0o644) != nil {
+						break
+					}
+					for _, si := range []int{1, 0} {
+						r := runSolver(context.Background(), solvers[si], cfile, 8)
+						if r.Result == "sat" {
+							o.CandidateModel, o.CandidateFile, o.CandidateSolver = r.Output, cfile, si
+							break search
+						}
+					}
+				}
+			}
+			if best != nil && best.Result == "sat" {
 			} else if o.Known {
 				o.Result = "unknown"
 				if best != nil {
@@ -483,5 +540,86 @@ func sanitizeFile(s string) string {
 	if len(s) > 120 {
 		s = s[:120]
 	}
+	return s
+}
+
+// dropNestedQuantifiers weakens an assertion so that it has no quantified subformulas (candidate mode only): a quantified
+// subformula in positive position becomes true, in negative position false; if one sits in a non-monotone position
+// (under =, ite, ...) the whole assertion is dropped. The result is implied by the original assertion.
+var mdDeclRe = regexp.MustCompile(`\(declare-const (MD_\S+) \(Array Int \(Array (\S+) Bool\)\)\)`)
+
+func dropNestedQuantifiers(line string) string {
+	ps := parseSx(line)
+	if len(ps) != 1 || len(ps[0].kids) != 2 || ps[0].kids[0].atom != "assert" {
+		if len(ps) == 1 {
+			// a bare formula
+			ok := true
+			r := weakenSx(ps[0], true, &ok)
+			if !ok {
+				return "true"
+			}
+			return r.String()
+		}
+		return line
+	}
+	ok := true
+	body := weakenSx(ps[0].kids[1], true, &ok)
+	if !ok {
+		return "; (assertion with a quantifier in a non-monotone position dropped)"
+	}
+	return "(assert " + body.String() + ")"
+}
+
+func hasQuant(s *sx) bool {
+	if s.isAtom() {
+		return false
+	}
+	if len(s.kids) > 0 && s.kids[0].isAtom() && (s.kids[0].atom == "forall" || s.kids[0].atom == "exists") {
+		return true
+	}
+	for _, k := range s.kids {
+		if hasQuant(k) {
+			return true
+		}
+	}
+	return false
+}
+
+func weakenSx(s *sx, pos bool, ok *bool) *sx {
+	if s.isAtom() || !hasQuant(s) {
+		return s
+	}
+	head := ""
+	if len(s.kids) > 0 && s.kids[0].isAtom() {
+		head = s.kids[0].atom
+	}
+	switch head {
+	case "forall", "exists":
+		if pos {
+			return &sx{atom: "true"}
+		}
+		return &sx{atom: "false"}
+	case "and", "or":
+		n := &sx{kids: []*sx{s.kids[0]}}
+		for _, k := range s.kids[1:] {
+			n.kids = append(n.kids, weakenSx(k, pos, ok))
+		}
+		return n
+	case "not":
+		if len(s.kids) == 2 {
+			return &sx{kids: []*sx{s.kids[0], weakenSx(s.kids[1], !pos, ok)}}
+		}
+	case "=>":
+		n := &sx{kids: []*sx{s.kids[0]}}
+		for i, k := range s.kids[1:] {
+			if i < len(s.kids)-2 {
+				n.kids = append(n.kids, weakenSx(k, !pos, ok))
+			} else {
+				n.kids = append(n.kids, weakenSx(k, pos, ok))
+			}
+		}
+		return n
+	}
+	*ok = false
 	return s
 }
